@@ -302,6 +302,21 @@ def items(tier, seed):
                                 ('top', 'critical', True)]]})]},
         job_open={'dur': [0, 2]}, top_open={}, nest_open={'timeout': [1, 2]},
         k=kk, bound=2, kind='mon')
+    yield from spaces.mk(
+        ['deep3'], force='product',
+        fargs={'parts': [
+            ('mods', {'alts': [
+                [('n', 'critical', True), ('m', 'critical', True),
+                 ('m', 'timeout', 1), ('p', 'dur', 3)],
+                [('n', 'critical', True), ('m', 'critical', True),
+                 ('n', 'timeout', 1), ('p', 'dur', 3)],
+                [('n', 'critical', True), ('m', 'critical', True),
+                 ('p', 'out', 'raise'), ('p', 'critical', True)]]}),
+            ('mods', {'alts': [[], [('top', 'k', 'nest')],
+                               [('top', 'k', 'nest'),
+                                ('top', 'critical', True)]]})]},
+        job_open={'dur': [0, 2]}, top_open={}, nest_open={'timeout': [2]},
+        k=1, bound=2, kind='mon')
     yield from spaces.mk(['deep3'], force='each_job', fargs=crit,
                          job_open={'dur': [0, 2]},
                          top_open={'k': ['nest'], 'critical': [True]},
